@@ -383,6 +383,7 @@ def run_harness(h, src, logdir):
         real_fail = [f for f in pr1["failures"] if "unwinding assertion" not in f["description"]]
         unw_fail = [f for f in pr1["failures"] if "unwinding assertion" in f["description"]]
         if not timed_out and pr1["failed"] and real_fail and not unw_fail \
+                and not h.get("no_inputs") \
                 and not re.search(r"CBMC failed with status|ut of memory", out):
             # pass 2 only for failing harnesses: obtain the concrete counterexample as a unit test
             cmd2 = kani_cmd(h, slot.dir, playback=True)
@@ -621,6 +622,18 @@ def run_property(prop, tier, seed, selftests=None, only=None):
     return 0
 
 
+def _loc_in(location, detail):
+    """True if the native panic message names the source location of the failing check (file suffix:line:col).  Needed
+    for checks whose description is Kani's placeholder for a runtime-formatted message (e.g. capacity_overflow)."""
+    m = re.match(r"\s*(\S+?):(\d+):(\d+)", location or "")
+    if not m:
+        return False
+    path = m.group(1)
+    parts = [x for x in path.split("/") if x not in ("..", ".", "")]
+    suffix = "/".join(parts[-3:])
+    return bool(suffix) and ("%s:%s:%s" % (suffix, m.group(2), m.group(3))) in detail
+
+
 def replay_failure(prop, fr, h, r, unlisted, src, logdir):
     os.makedirs(os.path.join(REPLAY_DIR, prop), exist_ok=True)
     # choose the playback test belonging to the first unlisted failure that has one
@@ -635,7 +648,9 @@ def replay_failure(prop, fr, h, r, unlisted, src, logdir):
     rep = {"property": prop, "harness": h["id"], "qualified": h["qualified"], "features": h["features"],
            "failures": unlisted, "fragment": fr.name, "functions": h["functions"], "bounds": h["bounds"]}
     ub_only = all(("pointer" in f["description"] or "dereference" in f["description"] or "out of bounds" in f["description"] and "index" not in f["description"]) for f in unlisted)
-    if test is None and not r.get("playback") and h.get("no_inputs"):
+    fallback = False
+    if test is None and not r.get("playback"):
+        fallback = True
         # a harness without symbolic inputs gets no playback test from Kani: replay it with an empty value list
         fn = h["name"]
         code = ("#[test]\nfn kani_concrete_playback_%s_noinputs() {\n    let concrete_vals: Vec<Vec<u8>> = vec![];\n"
@@ -649,10 +664,14 @@ def replay_failure(prop, fr, h, r, unlisted, src, logdir):
         f, t = test
         rep["playback_test"] = t["code"]
         ok, detail = native_replay(h, fr, src, t["code"], logdir)
-        if ok and not any(x["description"] and x["description"] in detail for x in unlisted):
+        if ok and not any((x["description"] and x["description"] in detail) or _loc_in(x.get("location", ""), detail)
+                          for x in unlisted):
             # the native run panicked, but not with the message of a failing check: do not count it
             ok = False
             detail = "native panic does not match any failing check: " + detail
+            if fallback and not h.get("no_inputs"):
+                detail = ("Kani produced no concrete playback test for the failing check (the playback pass ran out of "
+                          "memory / time, or the trace omitted it) and a replay with an empty input list did not reach it: " + detail)
         rep["reproduced"] = bool(ok)
         rep["detail"] = detail
         rep["profile"] = "dev"
